@@ -1,0 +1,32 @@
+//go:build verif
+
+package directive
+
+// Contracts for govc (/verif). Comment-only file: invisible without -tags verif.
+
+//@ inlinepkg github.com/jsightapi/jsight-schema-core/bytes
+//@ inlinepkg github.com/jsightapi/jsight-schema-core/fs
+
+// Uniform contract of the include tracer attached to every directive. The three implementations
+// (nopIncludeTracer, scanner.emptyIncludeTracer, scanner.directiveIncludeTracer) only append to the error's trace.
+//@ iface IncludeTracer.AddIncludeTraceToError(t, je)
+//@   property C07
+//@   modifies je.includeTrace, je.includeTrace[:]
+//@   ensures imp(je != nil, len(je.includeTrace) >= old(len(je.includeTrace)))
+
+// NewDirectiveType goes through a map built once at first use; its table is checked on the complete finite domain
+// (30 keywords + all 3-character strings of digits) by /verif/bounded (finite-domain, counted separately).
+//@ extern github.com/jsightapi/jsight-api-core/directive.NewDirectiveType(s)
+//@   attr deterministic nopanic
+//@   ensures 0 <= result0 && result0 <= 30
+//@ extern (github.com/jsightapi/jsight-api-core/directive.Enumeration).String(de)
+//@   attr pure deterministic
+//@   requires[C01] 0 <= de && de <= 30
+//@ extern (github.com/jsightapi/jsight-api-core/directive.Enumeration).IsAllowedForDirectiveContext(de, child)
+//@   attr pure deterministic nopanic
+
+// a directive that came out of the scanning phase: located at a keyword inside a non-empty file
+//@ pred dirOK(d *Directive) := d != nil && d.namedParameters != nil && d.includeTracer != nil
+//@     && 0 <= d.type_ && d.type_ <= 30
+//@     && d.keywordCoords.file != nil && len(d.keywordCoords.file.content.data) > 0
+//@     && d.keywordCoords.begin < len(d.keywordCoords.file.content.data)
